@@ -325,6 +325,17 @@ fn dump_str(d: &Dump) -> String {
     )
 }
 
+/// clause of a box failure: an excess of at most 8 ulp of the largest bound is the rounding of `update`'s clipped
+/// value (open finding `C13-update-clip-rounds-outside-box`), anything else is `box`
+pub(crate) fn box_clause(a: f64, lo: f64, hi: f64, bmax: f64, fe: f64) -> &'static str {
+    let slack = 8.0 * fe * bmax;
+    if (a > hi && a <= hi + slack) || (a < lo && a >= lo - slack) {
+        "box_rounding"
+    } else {
+        "box"
+    }
+}
+
 fn close(a: f64, b: f64, scale: f64, rel: f64) -> bool {
     (a - b).abs() <= rel * (1.0 + scale.abs() + a.abs().max(b.abs()))
 }
@@ -376,15 +387,8 @@ fn oracle_state(ctx: &mut Ctx, pr: &Prob, d: &Dump, class: &str, at: &str, after
     for k in 0..n {
         let a = d.alpha[k];
         let bb = pr.b[s[k]];
-        // rounding allowance of the known finding: 8 ulp of the largest bound of the problem
-        let slack = 8.0 * pr.feps() * pr.b.iter().fold(0.0f64, |m, v| m.max(*v));
-        if pr.inexact_bounds && ((a > bb && a <= bb + slack) || (a < 0.0 && a >= -slack)) {
-            // the clipped value `bound_j + diff` / `sum - bound_j` / `bound_i - diff` of `update` rounded to a few ulps
-            // above the bound or below zero
-            ctx.fail("box_rounding", class, format!("{}: alpha of sample {} = {:e} leaves [0, {:e}] by {:e} (rounding of the clipped value; allowance {:e})", at, s[k], a, bb, if a < 0.0 { -a } else { a - bb }, slack));
-        } else {
-            ctx.require(a >= 0.0 && a <= bb, "box", class, || format!("{}: alpha of sample {} = {} outside [0,{}]", at, s[k], a, bb));
-        }
+        let bmax = pr.b.iter().fold(0.0f64, |m, v| m.max(*v));
+        ctx.require(a >= 0.0 && a <= bb, box_clause(a, 0.0, bb, bmax, pr.feps()), class, || format!("{}: alpha of sample {} = {:e} outside [0,{:e}] (by {:e})", at, s[k], a, bb, if a < 0.0 { -a } else { a - bb }));
         ysum += pr.ysign(s[k]) * a;
         scale = scale.max(bb);
     }
@@ -424,7 +428,8 @@ fn oracle_kkt(ctx: &mut Ctx, pr: &Prob, alpha: &[f64], rho: f64, r: Option<f64>,
     let mut ysum = 0.0;
     let mut ysum0 = 0.0;
     for i in 0..n {
-        ctx.require(alpha[i] >= 0.0 && alpha[i] <= pr.b[i], "box", class, || format!("published alpha[{}] = {} outside [0,{}]", i, alpha[i], pr.b[i]));
+        let bmax = pr.b.iter().fold(0.0f64, |m, v| m.max(*v));
+        ctx.require(alpha[i] >= 0.0 && alpha[i] <= pr.b[i], box_clause(alpha[i], 0.0, pr.b[i], bmax, pr.feps()), class, || format!("published alpha[{}] = {:e} outside [0,{:e}]", i, alpha[i], pr.b[i]));
         ysum += pr.ysign(i) * alpha[i];
         ysum0 += pr.ysign(i) * pr.a0[i];
     }
@@ -601,7 +606,7 @@ fn run_solve<F: linfa::Float>(ctx: &mut Ctx, pr: &Prob, shrinking: bool, class: 
         ctx.require(s.alpha.len() == m, "alpha_len", class, || format!("{} coefficients for {} samples", s.alpha.len(), m));
         ctx.require(close(ssum, ysum0, bs * pr.n as f64, pr.rel()), "equality", class, || format!("sum of folded coefficients {} but the start had sum y alpha = {}", ssum, ysum0));
         for i in 0..m {
-            ctx.require(s.alpha[i] <= pr.b[i] && -s.alpha[i] <= pr.b[i + m], "box", class, || format!("folded coefficient {} = {} outside [-{}, {}]", i, s.alpha[i], pr.b[i + m], pr.b[i]));
+            ctx.require(s.alpha[i] <= pr.b[i] && -s.alpha[i] <= pr.b[i + m], box_clause(s.alpha[i], -pr.b[i + m], pr.b[i], bs, fe), class, || format!("folded coefficient {} = {} outside [-{}, {}]", i, s.alpha[i], pr.b[i + m], pr.b[i]));
         }
     } else {
         oracle_kkt(ctx, pr, &s.alpha, s.rho, s.r, s.iterations, class);
